@@ -49,7 +49,7 @@ pub(crate) fn parse_directive(jsx_attr: &JSXAttr, is_component: bool) -> Directi
                 .split('_');
             (
                 lowercase_first_letter(splitted.next().unwrap_or(&*ident.sym)),
-                splitted.next(),
+                None,
                 splitted,
             )
         }
